@@ -19,8 +19,8 @@ from vlib.core import Inconclusive
 LEVEL = "model_checking"
 
 
-def O(op, p="", path="", h="", kind=""):
-    return dict(op=op, p=p, path=path, h=h, kind=kind)
+def O(op, p="", path="", h="", kind="", to=""):
+    return dict(op=op, p=p, path=path, h=h, kind=kind, to=to)
 
 
 def seqs(ctx):
@@ -65,8 +65,27 @@ def programs(ctx):
         [O("PSend", "p", "f0"), O("Join", "p"), O("PSend", "p", "f0"), O("Fulfill", "q", kind="nocap"), O("PSend", "p", "f0")],
         [O("Fulfill", "p", kind="cap"), O("Client", "p", "f0", "x1"), O("CCall", h="x1"), O("ReleaseClients", "p"), O("Struct", "p")],
     ]
+    # join chains of three promises, built leaf first and root first; the pipelined clients stay usable until every
+    # promise of the chain has been asked to release them
+    singles += [
+        [O("Join", "r", to="p"), O("Join", "p", to="q"), O("Client", "q", "f0", "x1"), O("Fulfill", "q", kind="cap"),
+         O("ReleaseClients", "p"), O("ReleaseClients", "r"), O("CCall", h="x1"), O("ReleaseClients", "q")],
+        [O("Join", "p", to="q"), O("Join", "r", to="p"), O("Client", "r", "f0", "x1"), O("Fulfill", "q", kind="cap"),
+         O("ReleaseClients", "q"), O("ReleaseClients", "p"), O("CCall", h="x1"), O("ReleaseClients", "r"), O("CCall", h="x1")],
+        [O("Client", "r", "f0", "x1"), O("Join", "r", to="p"), O("Client", "p", "f0", "x2"), O("Join", "p", to="q"), O("Fulfill", "q", kind="cap"),
+         O("ReleaseClients", "r"), O("CCall", h="x1"), O("ReleaseClients", "q"), O("CCall", h="x2"), O("ReleaseClients", "p")],
+        [O("Fulfill", "q", kind="cap"), O("Client", "p", "f0", "x1"), O("Join", "p", to="q"), O("ReleaseClients", "p"), O("CCall", h="x1"), O("ReleaseClients", "q")],
+    ]
     for i, s in enumerate(singles):
         progs.append({"id": "seq-%d" % i, "threads": [s]})
+    chains = [
+        [[O("Join", "r", to="p"), O("Join", "p", to="q"), O("Fulfill", "q", kind="cap"), O("ReleaseClients", "r")],
+         [O("Client", "q", "f0", "x1"), O("ReleaseClients", "p"), O("CCall", h="x1"), O("ReleaseClients", "q")]],
+        [[O("Join", "p", to="q"), O("Fulfill", "q", kind="cap")],
+         [O("Join", "r", to="p"), O("Client", "r", "f0", "x1"), O("ReleaseClients", "r"), O("CCall", h="x1")]],
+    ]
+    for i, c in enumerate(chains):
+        progs.append({"id": "chain-%d" % i, "threads": c})
     pairs = [(r, c) for r in resolvers for c in callers]
     rng.shuffle(pairs)
     for i, (r, c) in enumerate(pairs[: (60 if ctx.quick else len(pairs))]):
